@@ -520,6 +520,9 @@ class Buildable(Generic[T], metaclass=abc.ABCMeta):
       ]
       new_placeholders = old_placeholders.copy()
       new_placeholders[slice_key] = value
+      # Values are moved to new indices below; read them from a snapshot so
+      # that a slot overwritten earlier in the loop is not read back.
+      old_arguments = dict(self.__arguments__)
       for index in range(var_positional_start, len(old_placeholders)):
         if index < len(new_placeholders):
           new_value = new_placeholders[index]
@@ -527,7 +530,7 @@ class Buildable(Generic[T], metaclass=abc.ABCMeta):
             if new_value == old_placeholders[index]:
               continue
             else:
-              new_value = self.__arguments__[new_value.index]
+              new_value = old_arguments[new_value.index]
           self._arguments_set_value(index, new_value)
         else:
           self._arguments_del_value(index)
@@ -536,7 +539,7 @@ class Buildable(Generic[T], metaclass=abc.ABCMeta):
       for index in range(len_old, len_new):
         new_value = new_placeholders[index]
         if isinstance(new_value, _Placeholder):
-          new_value = self.__arguments__[new_value.index]
+          new_value = old_arguments[new_value.index]
         self._arguments_set_value(index, new_value)
 
   def __setitem__(self, key: Any, value: Any):
